@@ -94,7 +94,91 @@ impl Gc {
     { unimplemented!() }
 }
 
-#[verifier::external_body] pub struct ThreadRef { _p: () }
+// ---- the thread tree (vm/src/thread.rs Thread { parent: Option<GcPtr<Thread>>, global_state: Arc<GlobalVmState>, context: Mutex<Context> })
+// Threads are compared by address; the ghost id stands for the address.
+#[verifier::external_body] pub struct Thread { _p: () }
+pub type ThreadRef = Thread;
+pub uninterp spec fn tid(t: Thread) -> int;
+pub uninterp spec fn global_id(t: Thread) -> int;            // address of the shared GlobalVmState
+pub uninterp spec fn parent_of(t: Thread) -> Option<Thread>; // the `parent` field
+pub uninterp spec fn depth(t: Thread) -> nat;                // distance from the root thread
+pub uninterp spec fn gen_of(t: Thread) -> Generation;        // generation of the thread's own collector
+
+// Structure of the tree as built by Thread::new_thread / Gc::new_child_gc (ASSUMED here, new_child_gc's part is
+// verified below): a child is one level deeper than its parent, its collector one generation younger, and it
+// shares the parent's global state.
+#[verifier::external_body]
+pub proof fn axiom_thread_tree(t: Thread)
+    ensures
+        gen_of(t).0 >= 0,
+        parent_of(t) is Some ==> depth(t) == depth(parent_of(t)->Some_0) + 1
+            && gen_of(t).0 == gen_of(parent_of(t)->Some_0).0 + 1
+            && global_id(t) == global_id(parent_of(t)->Some_0),
+{}
+
+// a is a strict ancestor of b
+pub open spec fn is_ancestor(a: Thread, b: Thread) -> bool
+    decreases depth(b)
+{
+    match parent_of(b) {
+        Some(p) => depth(p) < depth(b) && (tid(p) == tid(a) || is_ancestor(a, p)),
+        None => false,
+    }
+}
+// the threads may share heap values: same thread, or one is an ancestor of the other within one VM
+pub open spec fn related(a: Thread, b: Thread) -> bool {
+    tid(a) == tid(b) || (global_id(a) == global_id(b) && (is_ancestor(a, b) || is_ancestor(b, a)))
+}
+
+pub proof fn lemma_ancestor_is_older(a: Thread, b: Thread)
+    requires is_ancestor(a, b)
+    ensures gen_of(a).0 < gen_of(b).0 || tid(a) != tid(a),
+    decreases depth(b)
+{
+    axiom_thread_tree(b);
+    let p = parent_of(b)->Some_0;
+    if tid(p) != tid(a) { lemma_ancestor_is_older(a, p); }
+    else { axiom_same_tid_same_thread(p, a); }
+}
+// two references with the same address designate the same thread object
+#[verifier::external_body]
+pub proof fn axiom_same_tid_same_thread(a: Thread, b: Thread)
+    requires tid(a) == tid(b)
+    ensures a == b
+{}
+
+impl Thread {
+    // `self as *const Thread == other as *const Thread`
+    #[verifier::external_body]
+    pub fn ptr_eq(&self, other: &Thread) -> (r: bool) ensures r == (tid(*self) == tid(*other)) { unimplemented!() }
+    // `&*self.global_state as *const GlobalVmState != &*other.global_state as *const GlobalVmState`
+    #[verifier::external_body]
+    pub fn global_state_ptr_ne(&self, other: &Thread) -> (r: bool) ensures r == (global_id(*self) != global_id(*other)) { unimplemented!() }
+    // `other.context.lock().unwrap().gc.generation()` (R-lock)
+    #[verifier::external_body]
+    pub fn locked_gc_generation(&self) -> (r: Generation) ensures r == gen_of(*self) { unimplemented!() }
+    // the `parent` field read through `child.parent` / `&**next`
+    #[verifier::external_body]
+    pub fn parent(&self) -> (r: Option<&Thread>)
+        ensures r is Some == parent_of(*self) is Some, r is Some ==> *r->Some_0 == parent_of(*self)->Some_0
+    { unimplemented!() }
+    // self.owned_context(): locks the thread's own context (R-lock); its gc is this thread's collector
+    #[verifier::external_body]
+    pub fn owned_context(&self) -> (r: OwnedContext) ensures gc_gen(r.gc) == gen_of(*self) { unimplemented!() }
+    // root_value_with_self: roots the value in self (identity on the abstract value)
+    #[verifier::external_body]
+    pub fn root_value_with_self(&self, value: &Value) -> (r: RootedValue) ensures r.v == *value { unimplemented!() }
+}
+pub struct OwnedContext { pub gc: Gc }
+pub struct RootedValue { pub v: Value }
+pub struct Variants { pub v: Value }
+impl Variants {
+    // Variants::with_root(&v, gc): roots v for the lifetime of the gc borrow (identity on the abstract value)
+    #[verifier::external_body]
+    pub fn with_root(v: &Value) -> (r: Variants) ensures r.v == *v { unimplemented!() }
+    #[verifier::external_body]
+    pub fn get_value(&self) -> (r: &Value) ensures *r == self.v { unimplemented!() }
+}
 
 // value.rs Cloner { visited, thread, gc, receiver_generation }: visited map is opaque here (its sharing/cycle
 // discipline is not under contract)
@@ -201,4 +285,12 @@ impl<'gc> Cloner<'gc> {
         ensures r is Ok ==> elems_ok(*final(new_array)), fresh(*final(new_array)) == fresh(*old(new_array)),
                 final(self).receiver_generation == old(self).receiver_generation
     { unimplemented!() }
+}
+
+impl Gc {
+    // Gc::new(generation, memory_limit) (constructor: fields set as given, ASSUMED) and the two field reads
+    #[verifier::external_body]
+    pub fn new(generation: Generation, memory_limit: usize) -> (r: Gc) ensures gc_gen(r) == generation { unimplemented!() }
+    #[verifier::external_body]
+    pub fn memory_limit(&self) -> usize { unimplemented!() }
 }
